@@ -1096,10 +1096,17 @@ def normalise_function(fnode, known_locals, known_spellings=()):
         fn = sink_common_tail(known_locals, keep)(fn)
         if ast.dump(fn) != before:
             fn = elif_to_ifs(fn)
+    if any(isinstance(x, ast.Name) and x.id not in known_locals for x in ast.walk(fn)):
+        fn = fold_literal_residue(fn)
+    if any(isinstance(x, ast.Call) and norm(x.func) in ('itertools.count', 'count') for x in ast.walk(fn)):
+        fn = itercount_to_counter(fn)
     fn = guards_to_else(fn)
     fn = reduce_to_loop(fn)
     fn = update_dictcomp_to_loop(fn)
     fn = fuse_collect_loops(fn)
+    if any(isinstance(x, ast.For) and isinstance(x.iter, ast.Call) and norm(x.iter.func) == 'zip' and shape_key(x) not in keep
+           for x in ast.walk(fn)):
+        fn = fuse_collect_zip_loops(fn)
     fn = split_tuple_assigns(fn, keep)
     fn = coalesce_copies(fn)
     fn = aug_from_binop(fn, keep)
@@ -1220,6 +1227,175 @@ def reduce_to_loop(fnode):
                         ast.copy_location(o, s_)
                     blk[i:i + 1] = new
                     i += len(new)
+                    continue
+                i += 1
+    ast.fix_missing_locations(fn)
+    return fn
+
+
+def itercount_to_counter(fnode):
+    """c = itertools.count([k]) ... f(next(c), ..)        ->      c = k ... f(c, ..) ; c += 1
+    for a counter object that is used for nothing but `next(c)`, each `next(c)` being the only one of a simple statement
+    (a dict comprehension that draws an id per element is unrolled into its loop first; its key must not draw)."""
+    fn = copy.deepcopy(fnode)
+    cands = {}
+    for n in ast.walk(fn):
+        if isinstance(n, ast.Assign) and len(n.targets) == 1 and isinstance(n.targets[0], ast.Name) and \
+                isinstance(n.value, ast.Call) and norm(n.value.func) in ('itertools.count', 'count') and \
+                len(n.value.args) <= 1 and not n.value.keywords:
+            cands.setdefault(n.targets[0].id, []).append(n)
+    if not cands:
+        return fn
+    parents = {}
+    for n in ast.walk(fn):
+        for c in ast.iter_child_nodes(n):
+            parents[id(c)] = n
+    for name, defs in list(cands.items()):
+        refs = [n for n in ast.walk(fn) if isinstance(n, ast.Name) and n.id == name]
+        good = len(defs) == 1
+        for r in refs:
+            if isinstance(r.ctx, ast.Store):
+                good = good and parents.get(id(r)) is defs[0]
+            else:
+                c = parents.get(id(r))
+                good = good and isinstance(c, ast.Call) and norm(c.func) == 'next' and len(c.args) == 1 and c.args[0] is r \
+                    and not c.keywords
+        if not good:
+            del cands[name]
+    if not cands:
+        return fn
+
+    def draws(node, name):
+        return [c for c in ast.walk(node) if isinstance(c, ast.Call) and norm(c.func) == 'next' and len(c.args) == 1 and
+                isinstance(c.args[0], ast.Name) and c.args[0].id == name]
+    # dict comprehensions drawing ids: unrolled (the value draws, the key does not)
+    for name in cands:
+        for n in ast.walk(fn):
+            if isinstance(n, ast.Assign) and isinstance(n.value, ast.DictComp) and draws(n.value, name):
+                if draws(n.value.key, name) or len(n.value.generators) != 1 or \
+                        any(draws(x, name) for g in n.value.generators for x in [g.iter] + g.ifs):
+                    return copy.deepcopy(fnode)
+    if any(isinstance(n, ast.Assign) and isinstance(n.value, ast.DictComp) and any(draws(n.value, nm) for nm in cands)
+           for n in ast.walk(fn)):
+        fn = dictcomp_to_loops(fn)
+        # (dictcomp_to_loops stores `T[k] = v`: v is evaluated before k, k does not draw)
+    plan = []
+    for name in cands:
+        for n in ast.walk(fn):
+            for f in ('body', 'orelse', 'finalbody'):
+                blk = getattr(n, f, None)
+                if not (isinstance(blk, list) and blk and isinstance(blk[0], ast.stmt)):
+                    continue
+                for s_ in blk:
+                    if isinstance(s_, (ast.Expr, ast.Assign, ast.AugAssign, ast.Return)):
+                        d = draws(s_, name)
+                        if len(d) > 1 or (d and isinstance(s_, ast.Return)) or \
+                                any(isinstance(x, (ast.Lambda, ast.ListComp, ast.DictComp, ast.SetComp, ast.GeneratorExp, ast.IfExp,
+                                                   ast.BoolOp)) and draws(x, name) for x in ast.walk(s_)):
+                            return copy.deepcopy(fnode)
+                        if d:
+                            plan.append((blk, s_, d[0], name))
+                    else:
+                        heads = [getattr(s_, h, None) for h in ('test', 'iter', 'target')] + \
+                            [w.context_expr for w in getattr(s_, 'items', [])]
+                        if any(h is not None and draws(h, name) for h in heads):
+                            return copy.deepcopy(fnode)
+
+    class R(ast.NodeTransformer):
+        def __init__(self, call, name):
+            self.call, self.name = call, name
+
+        def visit_Call(self, node):
+            if node is self.call:
+                return ast.copy_location(ast.Name(id=self.name, ctx=ast.Load()), node)
+            self.generic_visit(node)
+            return node
+    for blk, s_, call, name in plan:
+        k = next(i for i, x in enumerate(blk) if x is s_)
+        new = R(call, name).visit(s_)
+        inc = ast.copy_location(ast.AugAssign(target=ast.Name(id=name, ctx=ast.Store()), op=ast.Add(), value=ast.Constant(value=1)), s_)
+        blk[k:k + 1] = [new, inc]
+    for name in cands:
+        for d in ast.walk(fn):
+            if isinstance(d, ast.Assign) and len(d.targets) == 1 and isinstance(d.targets[0], ast.Name) and \
+                    d.targets[0].id == name and isinstance(d.value, ast.Call) and norm(d.value.func) in ('itertools.count', 'count'):
+                d.value = d.value.args[0] if d.value.args else ast.copy_location(ast.Constant(value=0), d.value)
+    ast.fix_missing_locations(fn)
+    return fn
+
+
+def _num_const(e):
+    if isinstance(e, ast.Constant) and isinstance(e.value, (int, float)) and not isinstance(e.value, bool):
+        return e.value
+    if isinstance(e, ast.UnaryOp) and isinstance(e.op, ast.USub) and isinstance(e.operand, ast.Constant) and \
+            isinstance(e.operand.value, (int, float)) and not isinstance(e.operand.value, bool):
+        return -e.operand.value
+    return None
+
+
+class _Fold(ast.NodeTransformer):
+    """what is left behind when a literal is substituted for a formal parameter: `a if 1 > 0 else b` -> a,
+    `x + -1` -> `x - 1` (exact for every type that defines subtraction as adding the negative: ints, floats, arrays)"""
+
+    def _test(self, t):
+        if isinstance(t, ast.Compare) and len(t.ops) == 1:
+            a, b = _num_const(t.left), _num_const(t.comparators[0])
+            if a is not None and b is not None:
+                op = t.ops[0]
+                for cls, f in ((ast.Gt, a > b), (ast.GtE, a >= b), (ast.Lt, a < b), (ast.LtE, a <= b), (ast.Eq, a == b),
+                               (ast.NotEq, a != b)):
+                    if isinstance(op, cls):
+                        return f
+        return None
+
+    def visit_IfExp(self, node):
+        self.generic_visit(node)
+        d = self._test(node.test)
+        if d is not None:
+            return node.body if d else node.orelse
+        return node
+
+    def visit_If(self, node):
+        self.generic_visit(node)
+        d = self._test(node.test)
+        if d is not None:
+            return (node.body if d else node.orelse) or [ast.copy_location(ast.Pass(), node)]
+        return node
+
+    def visit_BinOp(self, node):
+        self.generic_visit(node)
+        if isinstance(node.op, ast.Add) and isinstance(node.right, ast.UnaryOp) and isinstance(node.right.op, ast.USub) and \
+                isinstance(node.right.operand, ast.Constant) and isinstance(node.right.operand.value, int) and \
+                not isinstance(node.right.operand.value, bool):
+            return ast.copy_location(ast.BinOp(left=node.left, op=ast.Sub(), right=node.right.operand), node)
+        return node
+
+
+def fold_literal_residue(fnode):
+    """constant tests and `+ -c` left behind by inlining a call with literal arguments; a range / reversed(range) held in a
+    local that is only the iterable of the loop that follows goes back into the loop header"""
+    fn = copy.deepcopy(fnode)
+    fn = _Fold().visit(fn)
+    counts = {}
+    for n in ast.walk(fn):
+        if isinstance(n, ast.Name):
+            counts[n.id] = counts.get(n.id, 0) + 1
+    for n in list(ast.walk(fn)):
+        for f in ('body', 'orelse', 'finalbody'):
+            blk = getattr(n, f, None)
+            if not (isinstance(blk, list) and blk and isinstance(blk[0], ast.stmt)):
+                continue
+            i = 0
+            while i + 1 < len(blk):
+                a, b = blk[i], blk[i + 1]
+                if isinstance(a, ast.Assign) and len(a.targets) == 1 and isinstance(a.targets[0], ast.Name) and \
+                        counts.get(a.targets[0].id) == 2 and isinstance(b, ast.For) and isinstance(b.iter, ast.Name) and \
+                        b.iter.id == a.targets[0].id and isinstance(a.value, ast.Call) and \
+                        norm(a.value.func) in ('range', 'reversed') and \
+                        (norm(a.value.func) == 'range' or (len(a.value.args) == 1 and isinstance(a.value.args[0], ast.Call) and
+                                                           norm(a.value.args[0].func) == 'range')):
+                    b.iter = a.value
+                    del blk[i]
                     continue
                 i += 1
     ast.fix_missing_locations(fn)
@@ -1353,6 +1529,13 @@ def update_dictcomp_to_loop(fnode):
                     comp = s_.value.args[0]
                     g = comp.generators[0]
                     key_, val_ = (comp.key, comp.value) if isinstance(comp, ast.DictComp) else comp.elt.elts
+                    # a dict / list comprehension is built completely BEFORE the update: the loop of stores is the same
+                    # only if no element reads the receiver (a generator expression is consumed store by store)
+                    recv_names = {x.id for x in ast.walk(s_.value.func.value) if isinstance(x, ast.Name)}
+                    if not isinstance(comp, ast.GeneratorExp) and \
+                            any(isinstance(x, ast.Name) and x.id in recv_names for e_ in (key_, val_, g.iter, *g.ifs)
+                                for x in ast.walk(e_)):
+                        continue
                     tgt = ast.Subscript(value=copy.deepcopy(s_.value.func.value), slice=key_, ctx=ast.Store())
                     body = [ast.Assign(targets=[tgt], value=val_)]
                     for c in reversed(g.ifs):
@@ -1403,6 +1586,88 @@ def fuse_collect_loops(fnode):
                             del blk[i]
                             continue
                 i += 1
+    ast.fix_missing_locations(fn)
+    return fn
+
+
+def fuse_collect_zip_loops(fnode):
+    """X1 = [] ; .. ; Xk = [] ; for v in S: B1 (plain assignments and one `Xj.append(ej)` per list) ;
+       for v, t1, .., tk in zip(S, X1, .., Xk): B2
+         ->  for v in S: B1 with `tj = ej` in place of the appends ; B2
+    when the lists are used nowhere else, S is a plain name, B2 stores none of the names B1 reads (also not through a
+    subscript / attribute) and reads none of the names B1 assigns, and the loop variable is the same name in both loops"""
+    fn = copy.deepcopy(fnode)
+    for n in list(ast.walk(fn)):
+        for f in ('body', 'orelse', 'finalbody'):
+            blk = getattr(n, f, None)
+            if not (isinstance(blk, list) and blk and isinstance(blk[0], ast.stmt)):
+                continue
+            for i2, l2 in enumerate(list(blk)):
+                if not (isinstance(l2, ast.For) and not l2.orelse and isinstance(l2.iter, ast.Call) and norm(l2.iter.func) == 'zip'
+                        and not l2.iter.keywords and len(l2.iter.args) >= 2 and all(isinstance(a, ast.Name) for a in l2.iter.args)
+                        and isinstance(l2.target, ast.Tuple) and len(l2.target.elts) == len(l2.iter.args)
+                        and isinstance(l2.target.elts[0], ast.Name)):
+                    continue
+                if l2 not in blk:
+                    continue
+                i2 = blk.index(l2)
+                if i2 == 0 or not isinstance(blk[i2 - 1], ast.For):
+                    continue
+                l1 = blk[i2 - 1]
+                S = l2.iter.args[0].id
+                Xs = [a.id for a in l2.iter.args[1:]]
+                if l1.orelse or not (isinstance(l1.iter, ast.Name) and l1.iter.id == S) or \
+                        not (isinstance(l1.target, ast.Name) and l1.target.id == l2.target.elts[0].id) or len(set(Xs)) != len(Xs):
+                    continue
+                inits = {}
+                k = i2 - 2
+                while k >= 0 and isinstance(blk[k], ast.Assign) and len(blk[k].targets) == 1 and \
+                        isinstance(blk[k].targets[0], ast.Name) and blk[k].targets[0].id in Xs and \
+                        isinstance(blk[k].value, ast.List) and not blk[k].value.elts:
+                    inits[blk[k].targets[0].id] = blk[k]
+                    k -= 1
+                if set(inits) != set(Xs):
+                    continue
+                if any(sum(1 for x in ast.walk(fn) if isinstance(x, ast.Name) and x.id == X) != 3 for X in Xs):
+                    continue
+                new1, appended, ok = [], {}, True
+                for s_ in l1.body:
+                    if isinstance(s_, ast.Assign) and all(isinstance(t, ast.Name) for t in s_.targets):
+                        new1.append(s_)
+                    elif isinstance(s_, ast.Expr) and isinstance(s_.value, ast.Call) and isinstance(s_.value.func, ast.Attribute) \
+                            and s_.value.func.attr == 'append' and isinstance(s_.value.func.value, ast.Name) and \
+                            s_.value.func.value.id in Xs and len(s_.value.args) == 1 and not s_.value.keywords and \
+                            s_.value.func.value.id not in appended:
+                        X = s_.value.func.value.id
+                        appended[X] = True
+                        t = copy.deepcopy(l2.target.elts[1 + Xs.index(X)])
+                        new1.append(ast.copy_location(ast.Assign(targets=[t], value=s_.value.args[0]), s_))
+                    else:
+                        ok = False
+                        break
+                if not ok or set(appended) != set(Xs):
+                    continue
+                assigned1 = {t.id for s_ in l1.body if isinstance(s_, ast.Assign) for t in s_.targets}
+                reads1 = {x.id for s_ in l1.body for x in ast.walk(s_) if isinstance(x, ast.Name) and isinstance(x.ctx, ast.Load)}
+                writes2 = set()
+                for s_ in l2.body:
+                    for x in ast.walk(s_):
+                        if isinstance(x, ast.Name) and isinstance(x.ctx, ast.Store):
+                            writes2.add(x.id)
+                        if isinstance(x, (ast.Subscript, ast.Attribute)) and isinstance(x.ctx, ast.Store):
+                            b_ = x
+                            while isinstance(b_, (ast.Subscript, ast.Attribute)):
+                                b_ = b_.value
+                            if isinstance(b_, ast.Name):
+                                writes2.add(b_.id)
+                reads2 = {x.id for s_ in l2.body for x in ast.walk(s_) if isinstance(x, ast.Name) and isinstance(x.ctx, ast.Load)}
+                tnames = {x.id for x in ast.walk(l2.target) if isinstance(x, ast.Name)}
+                if (writes2 & ((reads1 | {S}) - tnames)) or (reads2 & (assigned1 - tnames)) or (assigned1 & tnames):
+                    continue
+                l1.body = new1 + l2.body
+                blk.remove(l2)
+                for X in Xs:
+                    blk.remove(inits[X])
     ast.fix_missing_locations(fn)
     return fn
 
